@@ -38,6 +38,12 @@ type kindRunResult struct {
 	paths     []kindPath
 	truncated bool
 	uses      map[*ssa.Convert][]convUse
+	// census (kindcensus.go): the integer conversions executed on some path of
+	// this kind with the union of their operand sets (nil = not evaluable), and
+	// the functions entered
+	convs   map[*ssa.Convert]ISet
+	convTop map[*ssa.Convert]bool
+	entered map[*ssa.Function]bool
 }
 
 type kindRunKey struct {
@@ -69,7 +75,7 @@ func (w *World) kindRun(fn *ssa.Function, k int64, side string) *kindRunResult {
 		bounds = w.readerBoundaries()
 	}
 	delete(bounds, fn)
-	res := &kindRunResult{uses: map[*ssa.Convert][]convUse{}}
+	res := &kindRunResult{uses: map[*ssa.Convert][]convUse{}, convs: map[*ssa.Convert]ISet{}, convTop: map[*ssa.Convert]bool{}, entered: map[*ssa.Function]bool{fn: true}}
 	var px *PX
 	checkUse := func(t *Term, st *pxState, depth int) {}
 	checkUse = func(t *Term, st *pxState, depth int) {
@@ -108,6 +114,19 @@ func (w *World) kindRun(fn *ssa.Function, k int64, side string) *kindRunResult {
 	}
 	px = w.newPX(pxHooks{
 		onInstr: func(fr *pxFrame, in ssa.Instruction, st *pxState) bool {
+			res.entered[fr.fn] = true
+			if cv, isCv := in.(*ssa.Convert); isCv {
+				if _, _, ok1 := intTypeInfo(w, cv.X.Type()); ok1 {
+					if _, _, ok2 := intTypeInfo(w, cv.Type()); ok2 {
+						if src, _ := px.eval(cv.X, fr, st); src == nil {
+							res.convTop[cv] = true
+						} else {
+							res.convs[cv] = res.convs[cv].Union(src)
+						}
+					}
+				}
+				return true
+			}
 			c, ok := in.(*ssa.Call)
 			if !ok {
 				return true
